@@ -2,14 +2,21 @@
 
 use crate::report::Ctx;
 
+pub mod c01;
+pub mod c02;
+pub mod c03;
 pub mod c04;
 pub mod c05;
 pub mod c08;
 pub mod common;
+pub mod dynamic;
 pub mod c17;
 
 pub fn run(ctx: &Ctx) -> i32 {
     match ctx.prop.as_str() {
+        "C01" => c01::run(ctx),
+        "C02" => c02::run(ctx),
+        "C03" => c03::run(ctx),
         "C04" => c04::run(ctx),
         "C05" => c05::run(ctx),
         "C08" => c08::run(ctx),
